@@ -19,7 +19,10 @@ T_match == {T(A, FALSE, 0, 2), T(A, TRUE, 0, 2), T(AB, FALSE, 0, 2), T(AB, FALSE
 D_match == {D(A, 1), D(AB, 2), D(AB, 3), D(ABC, 4)}
 \* small graph for the transition cover
 T_small == {T(A, FALSE, 0, 1), T(A, TRUE, 0, 2), T(AB, FALSE, 0, 1)}
+\* ... and an Interest whose lifetime is 0 (legacy: times out in the instant it is expressed)
+T_small0 == T_small \cup {T(A, TRUE, 0, 0)}
 D_small == {D(A, 1), D(AB, 2)}
+D_small0 == D_small
 T_dig == {T(AB, FALSE, 2, 2), T(AB, TRUE, 3, 2), T(AB, FALSE, 0, 1), T(A, TRUE, 0, 2)}
 D_dig == {D(AB, 2), D(AB, 3), D(ABC, 4)}
 
